@@ -104,6 +104,8 @@ class Ocp(Stage):
     def _transcribe(self,**kwargs):
         if not self.is_transcribed:
             self._transcribed_placeholders.clear()
+            # the method objects are shared with earlier transcriptions: start from a clean state
+            self._untranscribe_recurse(phase=1)
             self._transcribe_recurse(phase=0,**kwargs)
             self._placeholders_transcribe_recurse(1,self._transcribed_placeholders)
             self._transcribe_recurse(phase=1,**kwargs)
